@@ -29,7 +29,9 @@ RULE = (
     'names separated by single blanks) and is then not judged itself, only '
     'the results; then 1-6 '
     '(thorough 1-14) chained operations, each drawn from the state of the '
-    'file it is applied to: copy; sliceDimensions over a non-empty subset of '
+    'file it is applied to: copy() or copy(data=False) (partial copies with '
+    'props/dimensions/variables=False are building blocks, not judged); '
+    'sliceDimensions over a non-empty subset of '
     'TSTEP/LAY/ROW/COL with ints in [-n,n-1] or non-empty slices (bounds '
     'None / negative / beyond the axis, step '
     'None/1/2/full reverse), one slice in five on gridded files a zipped '
@@ -72,7 +74,9 @@ RULE = (
     'multiple of 16; every listed name is a variable with one of the two '
     'standard dimension tuples; NROWS/NCOLS/NLAYS equal the lengths of '
     'ROW/COL/LAY where the dimension exists; len(VGLVLS) == NLAYS+1; SDATE, '
-    'STIME == TFLAG[0,0,:]; every VAR column of TFLAG holds the same flags.  All comparisons are integer/exact.  An '
+    'STIME == TFLAG[0,0,:]; every dimension a variable uses is a dimension '
+    'of the file (the count attributes describe dimensions that exist); '
+    'every VAR column of TFLAG holds the same flags.  All comparisons are integer/exact.  An '
     'operation that raises yields no result and is counted (label raised:*), '
     'not judged.  The chain stops at the first incoherent result (no '
     'cascades).  Secondary oracle: the structural keys of '
@@ -192,6 +196,13 @@ def coherence(f, std_dims):
             if got is None or int(got) != dims[dk]:
                 out.append((clause, '%s = %r but len(dimension %s) = %d' % (
                     att, got, dk, dims[dk])))
+    for vk in f.variables.keys():
+        gone = [d for d in f.variables[vk].dimensions if d not in dims]
+        if gone:
+            out.append(('dims-missing', 'variable %s uses dimensions %r that '
+                        'the file no longer has (dimensions %r)' % (
+                            vk, gone, sorted(dims))))
+            break
     vg = getattr(f, 'VGLVLS', None)
     nlays = getattr(f, 'NLAYS', None)
     if vg is None or nlays is None or np.asarray(vg).size != int(nlays) + 1:
@@ -364,6 +375,8 @@ class Machine(object):
         self.steps.append(step)
         f = self.cur
         self.r.label('op:' + op)
+        if op == 'copy' and a.get('data', True) is False:
+            self.r.label('copy:data=False')
         if op == 'apply' and isinstance(a['dims'].get('LAY'), list):
             self.r.label('apply:LAY' + a['dims']['LAY'][0])
         if op == 'rename':
@@ -542,7 +555,7 @@ EXEC = {
     'updatemeta': _updatemeta,
     'getvarlist': _getvarlist,
     'mfopen': _mfopen,
-    'copy': lambda f, a: f.copy(),
+    'copy': lambda f, a: f.copy(data=bool(a.get('data', True))),
     'slice': _slice,
     'subset': lambda f, a: f.subsetVariables(list(a['names'])),
     'rename': lambda f, a: f.renameVariable(a['old'], a['new']),
@@ -619,6 +632,12 @@ def draw_step(draw, s, avoid):
                                ['pncmfopen', 'pncmfopen',
                                 'open_mfdataset']))}]
     if op == 'copy':
+        # copy() or copy(data=False) (structure only).  props / dimensions /
+        # variables = False deliberately leave parts of the file out (the
+        # unchanged tree returns such building blocks without NVARS, TFLAG
+        # or count attributes, or raises): outside the statement
+        if draw(st.integers(0, 2)) == 0:
+            return ['copy', {'data': False}]
         return ['copy', {}]
     if op == 'slice' and 'ROW' in dims and 'COL' in dims and \
             draw(st.integers(0, 4)) == 0:
